@@ -65,14 +65,15 @@ def cases(draw, tier):
         c["h"] = draw(st.sampled_from([2, 4, 8]))
         c["bias"] = draw(st.booleans())
         c["rank"] = draw(st.integers(2, 4))
+    c["input_grad"] = draw(st.integers(0, 3)) != 0
     if c["via"] == "simulate_fp8":
         c["fwd"] = dict(name="E4M3", rounding="stochastic", srbits=0)
         c["bwd"] = dict(name="E5M2", rounding="stochastic", srbits=0)
     return c
 
 
-def prep(inputs):
-    return {k: (v.clone().requires_grad_() if k in FLOAT_INPUTS else v.clone()) for k, v in inputs.items()}
+def prep(inputs, rg=True):
+    return {k: (v.clone().requires_grad_(rg) if k in FLOAT_INPUTS else v.clone()) for k, v in inputs.items()}
 
 
 def bitequal(a, b):
@@ -97,6 +98,9 @@ def spell_feature(prog):
 
 def run(c) -> CaseResult:
     res = CaseResult()
+    rg = bool(c.get("input_grad", True))   # do the float inputs require a gradient? (a first layer fed by data: only the parameters do)
+    if not rg:
+        res.labels.append("inputs-without-grad")
     fwd, bwd = mk_fmt(c["fwd"]), mk_fmt(c["bwd"])
     torch.manual_seed(c["seed"])
     nnroot = bool(c.get("nnroot"))
@@ -142,6 +146,8 @@ def run(c) -> CaseResult:
                 return mode.linear({}, torch.relu(mode.linear({}, x, P["0.0.weight"], P.get("0.0.bias"))), P["1.weight"], P.get("1.bias"))
             y = mode.linear({}, x, P["0.weight"], P.get("0.bias"))
             return mode.ulinear({}, torch.tanh(y), P["2.weight"], P.get("2.bias"))
+    if not rg and not any(True for _ in m.parameters()):
+        rg = True   # nothing would require a gradient at all
     ftag = "+".join(feats) or "plain"
     if c["root"] in ("nn.Linear", "sequential", "nested-sequential"):
         # is the transform applied at all?  (root class defined in torch.nn)
@@ -161,23 +167,23 @@ def run(c) -> CaseResult:
     try:
         qm = simulate_fp8(m) if c["via"] == "simulate_fp8" else simulate_format(m, fwd, bwd)
         P = dict(qm.named_parameters())
-        fl = prep(inputs)
+        fl = prep(inputs, rg)
         with patch("torch.randint", pinned):
             y = call(qm, fl)
             up = torch.ones_like(y) if y.dim() == 0 else torch.randn(y.shape, generator=torch.Generator().manual_seed(c["seed"] + 1))
-            diff = [fl[k] for k in FLOAT_INPUTS if k in fl] + list(P.values())
+            diff = [fl[k] for k in FLOAT_INPUTS if k in fl and fl[k].requires_grad] + list(P.values())
             g = torch.autograd.grad(y, diff, up, allow_unused=True)
     except Exception as e:  # noqa: BLE001
         res.fail(exc_bucket("C15.raises", e).replace("outside-library", "via-dynamo")[:300], f"{type(e).__name__}: {str(e)[:300]}\n{src}")
         return res
     # reference: hand-written straight-through quantisation with the caller's format objects
-    fr = prep(inputs)
+    fr = prep(inputs, rg)
     mode = dsl.quantised(dsl.Plain, fwd, bwd)
     mode.begin({})
     with patch("torch.randint", pinned):
         yr = reference(P, fr, mode)
-        gr = torch.autograd.grad(yr, [fr[k] for k in FLOAT_INPUTS if k in fr] + list(P.values()), up, allow_unused=True)
-    names = [k for k in FLOAT_INPUTS if k in fl] + list(P.keys())
+        gr = torch.autograd.grad(yr, [fr[k] for k in FLOAT_INPUTS if k in fr and fr[k].requires_grad] + list(P.values()), up, allow_unused=True)
+    names = [k for k in FLOAT_INPUTS if k in fl and fl[k].requires_grad] + list(P.keys())
     if not bitequal(y.detach(), yr.detach()):
         res.fail(f"C15.value[{rtag}]", f"transformed module differs from the hand-quantised reference (fwd={fwd}, bwd={bwd}): max diff {(y - yr).abs().max().item():.3g}\n{src}")
     else:
@@ -197,19 +203,19 @@ def run(c) -> CaseResult:
         res.fail(exc_bucket("C15.raises.no_grad", e).replace("outside-library", "via-dynamo")[:300], f"{type(e).__name__}: {str(e)[:300]}\n{src}")
     # lossless format: bit-identical to the untransformed module (no harness arithmetic at all)
     if lossless(c["fwd"]) and lossless(c["bwd"]) and c["via"] == "simulate_format":
-        f0 = prep(inputs)
+        f0 = prep(inputs, rg)
         P0 = dict(m.named_parameters())
         y0 = call(m, f0)
-        g0 = torch.autograd.grad(y0, [f0[k] for k in FLOAT_INPUTS if k in f0] + list(P0.values()), up, allow_unused=True)
+        g0 = torch.autograd.grad(y0, [f0[k] for k in FLOAT_INPUTS if k in f0 and f0[k].requires_grad] + list(P0.values()), up, allow_unused=True)
         if not bitequal(y.detach(), y0.detach()) or not all(bitequal(a, b) for a, b in zip(g, g0)):
             res.fail("C15.lossless-not-identity", f"E8M23 simulation changed outputs or gradients\n{src}")
     # simulate_fp8 is the E4M3 / E5M2 instance
     if c["via"] == "simulate_fp8":
         qm2 = simulate_format(m, FPFormat(4, 3), FPFormat(5, 2))
-        f2 = prep(inputs)
+        f2 = prep(inputs, rg)
         with patch("torch.randint", pinned):
             y2 = call(qm2, f2)
-            g2 = torch.autograd.grad(y2, [f2[k] for k in FLOAT_INPUTS if k in f2] + list(qm2.parameters()), up, allow_unused=True)
+            g2 = torch.autograd.grad(y2, [f2[k] for k in FLOAT_INPUTS if k in f2 and f2[k].requires_grad] + list(qm2.parameters()), up, allow_unused=True)
         if not bitequal(y.detach(), y2.detach()) or not all(bitequal(a, b) for a, b in zip(g, g2)):
             res.fail("C15.simulate_fp8-instance", "simulate_fp8(m) differs from simulate_format(m, FPFormat(4,3), FPFormat(5,2))")
     # rewritten graph: every linear / attention node replaced, nothing else
